@@ -281,8 +281,18 @@ func (app *EVMApp) executeKVTx(state *estate.StateDB, tx *etypes.Transaction) (*
 	if err := rlp.DecodeBytes(txData, kvData); err != nil {
 		return nil, err
 	}
-	from, _ := etypes.Sender(app.Signer, tx)
-	state.SetNonce(from, state.GetNonce(from)+1)
+	from, err := etypes.Sender(app.Signer, tx)
+	if err != nil {
+		return nil, err
+	}
+	// same replay protection as ordinary transactions (core.StateTransition.preCheck)
+	nonce := state.GetNonce(from)
+	if nonce < tx.Nonce() {
+		return nil, core.ErrNonceTooHigh
+	} else if nonce > tx.Nonce() {
+		return nil, core.ErrNonceTooLow
+	}
+	state.SetNonce(from, nonce+1)
 	return kvData, nil
 }
 
